@@ -134,10 +134,12 @@ def judge_driver(ctx, cov, cfg, M, rhs, rec):
         xeq = [xr[i] / d[i] for i in range(n)]
         berr = F(r["berr"][j]); ferr = F(r["ferr"][j])
         # ---- truthfulness of berr for the returned X
-        om, _, _ = omega_exact(n, op_entries(ent, sense_prop), beq, xeq, cplx, safe1, safe2)
+        om, _, dens = omega_exact(n, op_entries(ent, sense_prop), beq, xeq, cplx, safe1, safe2)
         tol = 2 * (n + 2) * u + 10 * n * u * om
         cov["berr_checked"] += 1
         cov["trans=%d" % trans] += 1; cov["equed=%d" % equed] += 1
+        # Skeel's sigma(A,x) = max/min of (|A||x| + |b|): one refinement step reaches berr ~ (n+1)u only when cond * sigma * u << 1
+        sigma = (max(dens) / min(dens)) if dens and min(dens) > 0 else None
         if abs(berr - om) > tol:
             om2, _, _ = omega_exact(n, op_entries(ent, sense_code), beq, xeq, cplx, safe1, safe2)
             if conj and cplx and abs(berr - om2) <= 2 * (n + 2) * u + 10 * n * u * om2:
@@ -154,7 +156,7 @@ def judge_driver(ctx, cov, cfg, M, rhs, rec):
             cov["conj_x_clauses_excluded"] += 1
             continue
         # ---- size of berr for matrices that are not ill conditioned to working precision
-        if kappa is not None and kappa * kappa * eps < 1:
+        if kappa is not None and kappa * kappa * eps < 1 and sigma is not None and kappa * sigma * eps * 1000 < 1:
             cov["berr_size_checked"] += 1
             if berr > 10 * (n + 1) * u:
                 ctx.violation("berr-size", "berr=%g > 10(n+1)u=%g with cond=%g prec=%s n=%d trans=%d u_piv=%s" % (
